@@ -88,11 +88,15 @@ def generate(thorough):
         "init-const": "class A { real n; A(real k) : n(7.0) { } }",
         "field-init": "class A { real n = 7.0; A(real k) { } }",
         "ctor-body": "class A { real n; A(real k) { n == k + 1.0; } }",
+        # a field with a default initialiser that the constructor's initialiser list overrides (directly / in a supertype)
+        "default-and-init-list": "class A { real n = 7.0; A(real k) : n(k) { } }",
+        "default-and-super-init-list": "class B { real n = 7.0; B(real k) : n(k) { } } class A : B { A(real k) : B(k) { } }",
     }
     for cname, cdecl in cls.items():
         for vals in ((1,), (1, 5), (1, 5, 9)):
             base = [cdecl] + ["A a%d = new A(%d.0);" % (i, v) for i, v in enumerate(vals)] + ["A v;"]
-            fv = {"ctor-arg": lambda x: x, "init-const": lambda x: 7, "field-init": lambda x: 7, "ctor-body": lambda x: x + 1}[cname]
+            fv = {"ctor-arg": lambda x: x, "init-const": lambda x: 7, "field-init": lambda x: 7, "ctor-body": lambda x: x + 1,
+                  "default-and-init-list": lambda x: x, "default-and-super-init-list": lambda x: x}[cname]
             field = {"a%d" % i: F(fv(v)) for i, v in enumerate(vals)}
             for cons, ok in (([], lambda n: True), (["v.n >= 4.0;"], lambda n: n >= 4), (["v.n <= 4.0;"], lambda n: n <= 4), (["v.n == 5.0;"], lambda n: n == 5),
                              (["v.n >= 2.0;", "v.n <= 8.0;"], lambda n: 2 <= n <= 8)):
@@ -126,6 +130,13 @@ def generate(thorough):
                 {"kind": "ctor", "shape": "class-predicate:rule:%s:depth%d" % (kind, depth), "sat": True, "lower": low})
     add("class A { predicate P(real x) { x >= 8.0; } A(real k) { goal g = new this.P(x: k); k <= 3.0; } } real a; A o = new A(a);",
         {"kind": "ctor", "shape": "class-predicate:constructor:goal-contradicts-body", "sat": False})
+    # ---- variables declared inside a disjunct (their items die with the disjunct's environment; their flaws do not) ----
+    add("class A { } A a0 = new A(); A a1 = new A(); real a; { A v; a >= 8.0; } or { A w; a <= 0.0; a >= 8.0; }",
+        {"kind": "ctor", "shape": "object-variable-declared-in-disjunct", "sat": True, "lower": 8})
+    add("class A { } A a0 = new A(); A a1 = new A(); real a; { A v; v == a1; a >= 8.0; } or { A v; v == a0; a <= 0.0; a >= 8.0; }",
+        {"kind": "ctor", "shape": "object-variable-declared-in-disjunct:used", "sat": True, "lower": 8})
+    add("real a; { bool c; a >= 8.0; } or { bool d; a <= 0.0; a >= 8.0; }",
+        {"kind": "ctor", "shape": "boolean-declared-in-disjunct", "sat": True, "lower": 8})
     # ---- enums ----
     for decl, size in (('enum E {"a", "b"};', 2), ('enum E {"a", "b", "c"};', 3), ('enum G {"c"}; enum E {"a", "b"} | G;', 3), ('enum G {"c", "d"}; enum H {"e"}; enum E {"a"} | G | H;', 4)):
         for cons in ([], ["x != y;"], ["x == y;"], ["x != y;", "y != z;", "x != z;"]):
